@@ -175,6 +175,14 @@ let handle () =
    | "TREV" ->
      let v = nvec () in
      List.iter (fun ((a, b), c) -> emit (string_of_n a); emit (string_of_n b); emit (sgz c)) (m_trev v)
+   | "GATHER" ->
+     let n = nint () in
+     let ops = rep n (fun () -> let q = nnat () in let dg = nint () in (q, dg <> 0)) in
+     let ((sg, ab), bb) = m_gather ops in
+     emit (if sg then "1" else "0");
+     emit (string_of_int (List.length ab));
+     List.iter (fun (q, dg) -> emit (string_of_int (int_of_nat q)); emit (if dg then "1" else "0")) ab;
+     List.iter (fun (q, dg) -> emit (string_of_int (int_of_nat q)); emit (if dg then "1" else "0")) bb
    | "EXPORT" ->
      let norb = nnat () in
      let nrows = nint () in
